@@ -276,21 +276,24 @@ class CounterToken(Token, FileSystemEventHandler):
             self.watchedpath,
         )
         name = Path(event.src_path).name
-        # Name is in cache if we did not release the token ourselves
-        if name in self.cache:
-            with self.lock:
-                if name in self.cache:
-                    logging.debug("Deleting %s from token cache (event)", name)
-                    fc = self.cache[name]
-                    del self.cache[name]
+        # Name is in cache if we did not release the token ourselves (the
+        # cache can only be looked at with the lock: it is rebuilt by _update)
+        deleted = False
+        with self.lock:
+            if name in self.cache:
+                logging.debug("Deleting %s from token cache (event)", name)
+                fc = self.cache[name]
+                del self.cache[name]
+                deleted = True
 
-                    self.available += fc.count
-                    logger.debug(
-                        "Getting back %d tokens (%d available)",
-                        fc.count,
-                        self.available,
-                    )
+                self.available += fc.count
+                logger.debug(
+                    "Getting back %d tokens (%d available)",
+                    fc.count,
+                    self.available,
+                )
 
+        if deleted:
             # Do not lock here (notify only)
             if self.available > 0:
                 self.aio_notify()
